@@ -35,6 +35,7 @@ type C10Scenario struct {
 	RwBytes  []byte    `json:"rw_bytes,omitempty"`
 	RwU32    bool      `json:"rw_u32"`
 	RwU32Val uint32    `json:"rw_u32_val"`
+	WSize    int       `json:"writer_size"` // -1: NewBufferX(); else NewSizedBufferX(size)
 }
 
 var allKinds = []string{"bool", "u8", "u16", "i16", "u32", "i32", "u64", "i64", "varu64", "vari64", "varu32", "vari32", "f64", "str", "lstr", "raw"}
@@ -47,6 +48,16 @@ func drawItem(rt *rapid.T, kinds []string) item {
 		it.S = rapid.SampledFrom([]string{"", "", "a", "hello", "\x00\xff", "0123456789abcdefghij", "héllo wörld ✓"}).Draw(rt, "s")
 		if rapid.IntRange(0, 3).Draw(rt, "rnd") == 0 {
 			it.S = string(rapid.SliceOfN(rapid.Byte(), 0, 40).Draw(rt, "bytes"))
+		}
+		if rapid.IntRange(0, 11).Draw(rt, "huge") == 0 {
+			// bodies beyond common buffer sizes (4 KiB read-ahead buffers, 1 KiB initial capacity)
+			n := rapid.SampledFrom([]int{1023, 1024, 1025, 4095, 4096, 4097, 6000, 9000}).Draw(rt, "hugelen")
+			fill := byte(rapid.IntRange(1, 255).Draw(rt, "fill"))
+			b := make([]byte, n)
+			for i := range b {
+				b[i] = fill + byte(i%7)
+			}
+			it.S = string(b)
 		}
 		if it.Kind == "raw" && it.S == "" {
 			it.S = "x"
@@ -120,6 +131,7 @@ func mkSource(kind string, data []byte, plan FaultPlan) (io.Reader, *FaultyReade
 func drawC10(rt *rapid.T) interface{} {
 	sc := &C10Scenario{RwPos: -1}
 	sc.Source = rapid.SampledFrom(sourceKinds).Draw(rt, "source")
+	sc.WSize = rapid.SampledFrom([]int{-1, -1, 0, 1, 4, 16, 100}).Draw(rt, "wsize")
 	sc.Class = rapid.SampledFrom([]string{"roundtrip", "stream", "stream", "arbitrary"}).Draw(rt, "class")
 	switch sc.Class {
 	case "roundtrip":
@@ -193,10 +205,21 @@ func write(b *bytex.BufferX, it item) error {
 	case "lstr":
 		return b.WriteLimitString(it.Limit, it.S)
 	case "raw":
-		b.Write([]byte(it.S))
+		// the usual caller pattern: fill a scratch buffer, Write it, refill it: the written bytes must have been copied
+		if cap(scratch) < len(it.S) {
+			scratch = make([]byte, len(it.S)+16)
+		}
+		p := scratch[:len(it.S)]
+		copy(p, it.S)
+		b.Write(p)
+		for i := range p {
+			p[i] ^= 0x5a
+		}
 	}
 	return nil
 }
+
+var scratch []byte
 
 // expected is the canonical rendering of the value a read of this item must return.
 func expected(it item) string {
@@ -359,6 +382,9 @@ func runC10(t *testing.T, sci interface{}, keepLog bool) (o *hx.Outcome) {
 	switch sc.Class {
 	case "roundtrip", "stream":
 		w := bytex.NewBufferX()
+		if sc.WSize >= 0 {
+			w = bytex.NewSizedBufferX(sc.WSize)
+		}
 		var written []item
 		for _, it := range sc.Items {
 			err := write(w, it)
